@@ -175,6 +175,9 @@ def set_atom_names_atomistic(molecule, meta_graph=None):
             fraglist[fragids[0]].append(node)
 
     named = set()
+    # names of atoms that belong to several fragments; they are kept apart
+    # from each other because two of them may meet again in a later fragment
+    shared_names = set()
     for meta_node, fragnodes in fraglist.items():
         # an atom shared with an earlier fragment (squash operator) keeps the
         # name it got there; the other atoms must not be given that name again
@@ -182,12 +185,15 @@ def set_atom_names_atomistic(molecule, meta_graph=None):
         idx = 0
         for node in fragnodes:
             if node not in named:
+                shared = len(molecule.nodes[node].get('fragid', [])) > 1
                 atomname = molecule.nodes[node]['element'] + str(idx)
-                while atomname in used:
+                while atomname in used or (shared and atomname in shared_names):
                     idx += 1
                     atomname = molecule.nodes[node]['element'] + str(idx)
                 molecule.nodes[node]['atomname'] = atomname
                 named.add(node)
+                if shared:
+                    shared_names.add(atomname)
             idx += 1
             if meta_graph:
                 atomname = molecule.nodes[node]['atomname']
